@@ -100,6 +100,8 @@ impl CTok {
         slices_p.push(std::ptr::null());
         let canonical = world.spec.canonical;
         let mut err = vec![0u8; 512];
+        let eos_extra: Vec<u32> = world.spec.vocab.eos_extra.clone();
+        let use_v2 = use_v2 || !eos_extra.is_empty();
         let tok = if use_v2 {
             let init = LlgTokenizerInitV2 {
                 struct_size: std::mem::size_of::<LlgTokenizerInitV2>(),
@@ -117,8 +119,12 @@ impl CTok {
                 } else {
                     slices_p.as_ptr()
                 },
-                tok_eos_extra: std::ptr::null(),
-                tok_eos_extra_count: 0,
+                tok_eos_extra: if eos_extra.is_empty() {
+                    std::ptr::null()
+                } else {
+                    eos_extra.as_ptr()
+                },
+                tok_eos_extra_count: eos_extra.len() as u32,
             };
             unsafe { llg_new_tokenizer_v2(&init, err.as_mut_ptr() as *mut _, err.len()) }
         } else {
